@@ -22,6 +22,7 @@ class Cfg(object):
         self.faults = True       # failing leaves, raise statements
         self.lazy_raise = True
         self.agen_modes = ("plain", "await", "value", "span", "span")   # where generator bodies open recording blocks
+        self.premade = False        # some programs: the root's leading mk tasks are created at top level before the computation
         self.tool_reads = False     # C07: tool bodies read scoped value 0 after their request came back
         self.tools = ()             # library tools used as leaves: subset of TOOLS ("dd2" = deduplicated bodies that re-enter themselves from a failure handler)
         self.shared_lazy = 0        # weight of ["slazy", mode, k] leaves: the same lazy Future object in several places
@@ -699,6 +700,8 @@ def programs(draw, cfg):
     prog = {"root": root, "shape": shape, "prio": priorities(s), "faults": [], "conv": s.pick(cfg.convs), "nsv": 2}
     if cfg.tool_reads:
         prog["tool_reads"] = True
+    if cfg.premade and root["body"] and root["body"][0]["op"] == "mk" and s.chance(2):
+        prog["premade"] = True      # the shared tasks are created by the starting code, not by the root task
     if cfg.flush_faults and not s.has_tools and s.chance(3):
         for _ in range(s.int(1, 2)):
             prog["faults"].append([s.pick(cfg.kinds), s.pick([0, 0, 0, 1, 1, 2]), s.pick(cfg.flush_faults)])
